@@ -65,6 +65,8 @@ def run_cfg(cfg):
     kw = dict(model_key=mk, params_initial=p, segment=cfg["segment"],
               range_x=cfg["range_x"], weight_cp=cfg["weight_cp"],
               gcf_k=cfg["gcf_k"], method=cfg["method"])
+    if cfg.get("range_type"):
+        kw["range_type"] = cfg["range_type"]
     if cfg["method"] == "nelder":
         kw["method_kws"] = {"max_nfev": 4000}
     with fits.MinimizeCapture() as cap:
@@ -151,10 +153,14 @@ def oracle(run, cfg, idnt, calls, p0, fixed):
     for name, par in pf.items():
         if not (par.min <= par.value <= par.max):
             fail(f"{name}={par.value} outside its bounds", "C04 (bounds)")
-    if cfg["expr"] and pf["baseline"].expr:
+    if cfg["expr"] and cfg["fix"] != "baseline" and "baseline" in pf:
         ekey = "E" if "E" in pf else "E_S"
-        if not math.isclose(pf["baseline"].value, pf[ekey].value * 1e-15,
-                            rel_tol=1e-12):
+        if not pf["baseline"].expr:
+            fail("the baseline was declared with the expression "
+                 f"'{ekey}*1e-15' but is reported without one",
+                 "C04 (expr)")
+        elif not math.isclose(pf["baseline"].value, pf[ekey].value * 1e-15,
+                              rel_tol=1e-12):
             fail("expression-constrained baseline violates its expression",
                  "C04 (expr)")
     return cp_scaled
@@ -344,6 +350,34 @@ def weights_history_cases(run):
                             f"{e}", payload={"kind": "rerun"})
 
 
+def multipass_expr_cases(run):
+    """contact-point-relative (four pass) fits with a parameter tied to the
+    modulus by an expression: the expression is still declared and satisfied
+    in the reported parameters, and all other relations hold"""
+    n = 3 if run.tier == "quick" else 30
+    k = 0
+    for cfg in configs(run.rng, run.tier):
+        if cfg["method"] != "leastsq" or cfg["fix"] == "baseline" or \
+                cfg["model_key"].startswith("power_layer"):
+            continue
+        cfg = dict(cfg, expr=True, range_type="relative cp",
+                   range_x=[-1.5e-6, 1e-6], noise=2e-11,
+                   history="multipass-expr")
+        key = "hist:" + common.sha(cfg)[:16]
+        try:
+            idnt, calls, p0, fixed = run_cfg(cfg)
+        except BaseException as e:
+            run.failing(SITE, key, f"{cfg}: raised {type(e).__name__}: {e}",
+                        payload={"kind": "rerun"})
+            continue
+        run.case(cfg, kind="multipass-expr")
+        if idnt.fit_properties.get("success") and calls:
+            oracle(run, cfg, idnt, calls, p0, fixed)
+        k += 1
+        if k >= n:
+            break
+
+
 def check(run):
     run.sources = common.source_digests(
         ["src/nanite/fit.py", "src/nanite/model/residuals.py",
@@ -396,6 +430,7 @@ def check(run):
     bounds_history_cases(run)
     analysis_history_cases(run)
     weights_history_cases(run)
+    multipass_expr_cases(run)
     for kf in run.known:
         if kf.get("status") == "fixed":
             run.fixed_must_pass(kf["id"], not any(
